@@ -4,6 +4,8 @@ import (
 	"context"
 	"encoding/json"
 	"fmt"
+	"math"
+	"os"
 	"sort"
 	"strings"
 	"sync"
@@ -50,6 +52,10 @@ func showJSON(j any) any {
 	switch x := j.(type) {
 	case jnull:
 		return nil
+	case float64:
+		if math.IsNaN(x) || math.IsInf(x, 0) {
+			return fmt.Sprintf("<number %v>", x) // not representable in JSON; structpb.NewNumberValue takes it
+		}
 	case []any:
 		o := make([]any, len(x))
 		for i := range x {
@@ -94,6 +100,13 @@ func typeRef(k kind) *openfgav1.ConditionParamTypeRef {
 	case kAny:
 		return t(openfgav1.ConditionParamTypeRef_TYPE_NAME_ANY)
 	}
+	if k >= nKinds {
+		info := genInfo(k)
+		if info.shape == shList {
+			return t(openfgav1.ConditionParamTypeRef_TYPE_NAME_LIST, typeRef(info.elem))
+		}
+		return t(openfgav1.ConditionParamTypeRef_TYPE_NAME_MAP, typeRef(info.elem))
+	}
 	panic("kind")
 }
 
@@ -134,6 +147,9 @@ type Case struct {
 	StoredNil bool           `json:"stored_context_nil"`
 	ReqJSON   map[string]any `json:"request_context"`
 	StoJSON   map[string]any `json:"stored_context"`
+	Special   string         `json:"nonfinite_number,omitempty"` // "NaN" | "+Inf" | "-Inf": a case of the non-finite-number sweep
+	SpecialAt int            `json:"nonfinite_position,omitempty"`
+	SpecialIn string         `json:"nonfinite_context,omitempty"` // "request" | "stored"
 	Expected  string         `json:"expected"`
 	Got       string         `json:"got"`
 }
@@ -141,30 +157,55 @@ type Case struct {
 type runner struct {
 	r     *core.Report
 	ts    *typesystem.TypeSystem
-	alpha [nKinds][]val
+	alpha [][]val // per kind: the value classes (without "absent")
+	full  [][]val // per generated container kind: the classes usable with indexing expressions (see val.Short)
 	tier  string
+
+	contEvals, contEvaluated, contFromStored, contFromRequest, contElemConverted atomic.Int64
+	contByKind                                                                   sync.Map // kind name -> *atomic.Int64
 
 	sigSeen sync.Map // signature -> *atomic.Int64
 }
 
-func (rn *runner) ctxStruct(c *cond, idx []int, asNil bool) (*structpb.Struct, map[string]any) {
-	show := map[string]any{}
+// alphaOf is the value alphabet a parameter is swept over.
+func (rn *runner) alphaOf(p param) []val {
+	if p.Full {
+		return rn.full[p.K]
+	}
+	return rn.alpha[p.K]
+}
+
+// ctxStruct builds the context struct of one case. The structpb values of the alphabet are built once and
+// shared (the evaluator only reads them).
+func (rn *runner) ctxStruct(c *cond, idx []int, asNil bool) *structpb.Struct {
+	if asNil {
+		return nil
+	}
 	s := &structpb.Struct{}
 	for i, p := range c.Params {
 		if idx[i] == 0 {
 			continue
 		}
 		if s.Fields == nil {
-			s.Fields = map[string]*structpb.Value{}
+			s.Fields = make(map[string]*structpb.Value, len(c.Params))
 		}
-		v := rn.alpha[p.K][idx[i]-1]
-		s.Fields[p.Name] = toValue(v.JSON)
-		show[p.Name] = showJSON(v.JSON)
+		s.Fields[p.Name] = rn.alphaOf(p)[idx[i]-1].pb
 	}
+	return s
+}
+
+// ctxShow is the JSON form of the same context (for samples and failing cases).
+func (rn *runner) ctxShow(c *cond, idx []int, asNil bool) map[string]any {
 	if asNil {
-		return nil, nil
+		return nil
 	}
-	return s, show
+	show := map[string]any{}
+	for i, p := range c.Params {
+		if idx[i] != 0 {
+			show[p.Name] = showJSON(rn.alphaOf(p)[idx[i]-1].JSON)
+		}
+	}
+	return show
 }
 
 type outcome struct {
@@ -189,7 +230,7 @@ func (rn *runner) expect(c *cond, req, sto []int, storedWins bool) (o outcome, w
 // expectX with saturate=true is a diagnosis aid only: it evaluates the hypothesis "integers outside the int64
 // range are saturated to it" so that deviations caused by exactly that mechanism get one signature.
 func (rn *runner) expectX(c *cond, req, sto []int, storedWins, saturate bool) (o outcome, why []string, classes []string, saturated []string) {
-	e := env{}
+	e := newEnv()
 	for i, p := range c.Params {
 		first, second := sto[i], req[i]
 		if !storedWins {
@@ -203,12 +244,12 @@ func (rn *runner) expectX(c *cond, req, sto []int, storedWins, saturate bool) (o
 			why = append(why, "missing:"+p.K.String())
 			continue
 		}
-		v := rn.alpha[p.K][pick-1]
+		v := &rn.alphaOf(p)[pick-1]
 		if !v.Plain {
 			classes = append(classes, p.K.String()+"="+v.Name)
 		}
 		if saturate && v.Clamp != nil {
-			e[p.Name] = *v.Clamp
+			e.set(p.Name, v.Clamp)
 			if v.Conv == convBad {
 				saturated = append(saturated, p.K.String()+"-out-of-range-accepted")
 			} else {
@@ -220,7 +261,8 @@ func (rn *runner) expectX(c *cond, req, sto []int, storedWins, saturate bool) (o
 			why = append(why, "unconvertible:"+p.K.String()+"="+v.Name)
 			continue
 		}
-		e[p.Name] = v.T
+		e.set(p.Name, &v.T)
+		bindAcc(e, p.Name, &v.T)
 	}
 	if len(why) > 0 {
 		return outcome{err: true}, why, classes, saturated
@@ -241,14 +283,31 @@ func uniq(ss []string) string {
 
 // runCase executes the real evaluator on one case and judges it. Returns the verdict signature ("" = conforms).
 func (rn *runner) runCase(c *cond, ec *condition.EvaluableCondition, req, sto []int, reqNil, stoNil bool) string {
-	reqS, reqShow := rn.ctxStruct(c, req, reqNil)
-	stoS, stoShow := rn.ctxStruct(c, sto, stoNil)
+	reqS, stoS := rn.ctxStruct(c, req, reqNil), rn.ctxStruct(c, sto, stoNil)
 	tk := &openfgav1.TupleKey{Object: "doc:1", Relation: "r", User: "user:a",
 		Condition: &openfgav1.RelationshipCondition{Name: c.Name, Context: stoS}}
-	met, err := eval.EvaluateTupleCondition(context.Background(), tk, ec, reqS)
+	met, err, panicked := safeEvaluate(tk, ec, reqS)
 	rn.r.Eval(1)
 	got := outcome{err: err != nil, v: met}
 	exp, why, classes := rn.expect(c, req, sto, true)
+	if c.Container {
+		rn.contEvals.Add(1)
+		if n, ok := rn.contByKind.Load(c.Params[0].K.String()); ok {
+			n.(*atomic.Int64).Add(1)
+		}
+		if !exp.err {
+			// the expression is evaluated on converted elements; which context supplied the container?
+			rn.contEvaluated.Add(1)
+			if sto[0] != 0 {
+				rn.contFromStored.Add(1)
+			} else {
+				rn.contFromRequest.Add(1)
+			}
+			if len(classes) > 0 {
+				rn.contElemConverted.Add(1) // at least one element in a non-canonical (string / other spelling) form
+			}
+		}
+	}
 
 	overlap := false
 	for i := range req {
@@ -261,8 +320,16 @@ func (rn *runner) runCase(c *cond, ec *condition.EvaluableCondition, req, sto []
 	}
 
 	sig := ""
-	sat, _, _, satWhich := rn.expectX(c, req, sto, true, true)
+	var sat outcome
+	var satWhich []string
+	if panicked == "" && got != exp {
+		sat, _, _, satWhich = rn.expectX(c, req, sto, true, true)
+	}
 	switch {
+	case panicked != "":
+		sig = "panic-escapes-evaluation/" + c.signatureKinds()
+		got = outcome{err: true}
+		err = fmt.Errorf("PANIC: %s", panicked)
 	case got == exp:
 	case len(satWhich) > 0 && got == sat:
 		// explained by: numericTypeConverterFunc saturates integers outside the int64 range instead of failing
@@ -305,6 +372,7 @@ func (rn *runner) runCase(c *cond, ec *condition.EvaluableCondition, req, sto []
 		rn.r.Violate(sig, "", nil)
 		return sig
 	}
+	reqShow, stoShow := rn.ctxShow(c, req, reqNil), rn.ctxShow(c, sto, stoNil)
 	cs := Case{Tier: rn.tier, Cond: c.Name, Expr: c.E.cel(), Req: req, Stored: sto, ReqNil: reqNil, StoredNil: stoNil,
 		ReqJSON: reqShow, StoJSON: stoShow, Expected: exp.String() + " " + strings.Join(why, ","), Got: got.String()}
 	if err != nil {
@@ -317,6 +385,17 @@ func (rn *runner) runCase(c *cond, ec *condition.EvaluableCondition, req, sto []
 	rn.r.Violate(sig, fmt.Sprintf("condition(%s){ %s } contexts %s (request nil=%v, stored nil=%v): EvaluateTupleCondition=%s, reference=%s",
 		strings.Join(cs.Params, ", "), cs.Expr, b, reqNil, stoNil, cs.Got, cs.Expected), cs)
 	return sig
+}
+
+// safeEvaluate calls the real evaluator; a panic is an outcome of its own (never the harness' crash).
+func safeEvaluate(tk *openfgav1.TupleKey, ec *condition.EvaluableCondition, reqS *structpb.Struct) (met bool, err error, panicked string) {
+	defer func() {
+		if p := recover(); p != nil {
+			panicked = fmt.Sprint(p)
+		}
+	}()
+	met, err = eval.EvaluateTupleCondition(context.Background(), tk, ec, reqS)
+	return
 }
 
 func countPrefix(ss []string, p string) int {
@@ -345,7 +424,7 @@ func (rn *runner) sweep(c *cond, ec *condition.EvaluableCondition) {
 	sizes := make([]int, 2*n)
 	total := 1
 	for i, p := range c.Params {
-		sizes[i] = len(rn.alpha[p.K]) + 1
+		sizes[i] = len(rn.alphaOf(p)) + 1
 		sizes[n+i] = sizes[i]
 		total *= sizes[i] * sizes[i]
 	}
@@ -381,23 +460,155 @@ func allZero(a []int) bool {
 	return true
 }
 
+// ---- non-finite numbers ---------------------------------------------------------------------
+//
+// structpb.NewNumberValue takes NaN and +/-Inf although JSON has no such numbers. For an int / uint parameter
+// (or element) such a value is not "an integral number inside the 64-bit range": the evaluation must fail.
+// For double the table is silent: only "no panic" is demanded and the outcomes are counted.
+
+var nonFinite = []struct {
+	name string
+	v    float64
+}{{"NaN", math.NaN()}, {"+Inf", math.Inf(1)}, {"-Inf", math.Inf(-1)}}
+
+// specialTarget: is the (single) parameter of c a number, or a one-level container of numbers?
+func specialTarget(c *cond) (elem kind, shape int, ok bool) {
+	if len(c.Params) != 1 {
+		return 0, 0, false
+	}
+	k := c.Params[0].K
+	if k >= nKinds {
+		info := genInfo(k)
+		k, shape = info.elem, info.shape
+	}
+	return k, shape, k == kInt || k == kUint || k == kDouble
+}
+
+func specialPositions(shape int) int {
+	if shape == 0 {
+		return 1
+	}
+	return 2
+}
+
+// runSpecial: the non-finite number sits at position at of the value of c's parameter, which comes from the
+// request context (stored context empty) or from the stored context (request context holds the canonical A).
+func (rn *runner) runSpecial(c *cond, ec *condition.EvaluableCondition, which, at int, src string) string {
+	elem, shape, _ := specialTarget(c)
+	p := c.Params[0]
+	a := rn.alpha[elem][0]
+	nf := nonFinite[which]
+	var j any = nf.v
+	switch shape {
+	case shList:
+		l := []any{a.JSON, a.JSON}
+		l[at] = nf.v
+		j = l
+	case shMap:
+		m := map[string]any{"k": a.JSON, "j": a.JSON}
+		m[mapKeys[at]] = nf.v
+		j = m
+	}
+	one := func(v *structpb.Value) *structpb.Struct {
+		return &structpb.Struct{Fields: map[string]*structpb.Value{p.Name: v}}
+	}
+	reqS, stoS := one(toValue(j)), &structpb.Struct{}
+	reqShow, stoShow := map[string]any{p.Name: showJSON(j)}, map[string]any{}
+	if src == "stored" {
+		stoS, reqS = reqS, one(rn.alphaOf(p)[0].pb)
+		stoShow, reqShow = reqShow, map[string]any{p.Name: showJSON(rn.alphaOf(p)[0].JSON)}
+	}
+	tk := &openfgav1.TupleKey{Object: "doc:1", Relation: "r", User: "user:a",
+		Condition: &openfgav1.RelationshipCondition{Name: c.Name, Context: stoS}}
+	met, err, panicked := safeEvaluate(tk, ec, reqS)
+	rn.r.Eval(1)
+	rn.r.Nontrivial(core.Hash("nonfinite", c.Name, nf.name, fmt.Sprint(at), src))
+	rn.r.Count("nonfinite_number_evaluations", 1)
+	sig, exp := "", "error (a non-finite number is not an integral number inside the 64-bit range)"
+	if elem == kDouble {
+		exp = "no panic (the conversion table does not say whether a non-finite number is a double)"
+	}
+	switch {
+	case panicked != "":
+		sig = "panic-escapes-evaluation/" + c.signatureKinds()
+	case err != nil && met:
+		sig = "true-returned-together-with-error"
+	case elem == kDouble:
+		if err != nil {
+			rn.r.Count("nonfinite_double_rejected", 1)
+		} else {
+			rn.r.Count("nonfinite_double_evaluated", 1)
+		}
+	case err == nil:
+		sig = "nonfinite-number-accepted/" + c.signatureKinds()
+	}
+	if sig == "" {
+		return ""
+	}
+	got := fmt.Sprint(met)
+	if err != nil {
+		got = "error: " + err.Error()
+	}
+	if panicked != "" {
+		got = "PANIC: " + panicked
+	}
+	cs := Case{Tier: rn.tier, Cond: c.Name, Expr: c.E.cel(), Params: []string{p.Name + ": " + p.K.String()}, ReqJSON: reqShow, StoJSON: stoShow,
+		Special: nf.name, SpecialAt: at, SpecialIn: src, Expected: exp, Got: got}
+	b, _ := json.Marshal(map[string]any{"request": reqShow, "stored": stoShow})
+	rn.r.Violate(sig, fmt.Sprintf("condition(%s){ %s } contexts %s: EvaluateTupleCondition=%s, reference=%s", cs.Params[0], cs.Expr, b, got, exp), cs)
+	return sig
+}
+
+func (rn *runner) sweepSpecial(c *cond, ec *condition.EvaluableCondition) {
+	_, shape, ok := specialTarget(c)
+	if !ok {
+		return
+	}
+	for which := range nonFinite {
+		for at := 0; at < specialPositions(shape); at++ {
+			for _, src := range []string{"request", "stored"} {
+				rn.runSpecial(c, ec, which, at, src)
+			}
+		}
+	}
+}
+
 func Run(o *core.Options) int {
 	r := core.NewReport(o, "exploration",
-		"every condition of a tiny grammar (per parameter type: comparison with a literal, ==/!= of two parameters of one type, `in` for list/map, in_cidr for ipaddress, closed under !, &&, || up to two atoms; thorough adds more literals, negated forms and all two-type pairs) x the full product over both parameters of request-context class x stored-context class, each in {absent, value A, value B, other spellings, mistyped/unconvertible values, out-of-range numbers} (absent-everything also as nil struct vs empty struct); real eval.EvaluateTupleCondition on a condition taken from the typesystem vs an independent evaluator over request (+) stored with stored winning; non-trivial = request and stored disagree on a parameter, or a parameter is missing, unconvertible or given in a non-canonical form; distinct by (condition, request classes, stored classes)")
+		"every condition of a tiny grammar (per parameter type: comparison with a literal, ==/!= of two parameters of one type, `in` for list/map, in_cidr for ipaddress, closed under !, &&, || up to two atoms; type-sensitive members: arithmetic / string / duration / timestamp operators that only exist for the declared type, `x < y` of two converted parameters; thorough adds more literals, negated forms and all two-type pairs) x the full product over both parameters of request-context class x stored-context class, each in {absent, value A, value B, other spellings, mistyped/unconvertible values, out-of-range numbers} (absent-everything also as nil struct vs empty struct). Container dimension: a parameter of type list<T> and map<T> for every element type T in {bool, string, int, uint, double, duration, timestamp, ipaddress, any} and two-level kinds (list<list<int>>, map<list<duration>>, list<map<uint>>, map<map<ipaddress>>; thorough: all four shapes over 7 element types), with every element-type atom and type-sensitive operator applied to element 0 / element 1 (c[0], c[\"k\"]), two converted elements compared with each other (==, !=, <), the whole container (== literal, size, literal `in`, key `in`) and the exists/all macros over the converted elements; container values are generated from the element alphabet: every element class (canonical, numeric-string / other spelling, mistyped, out of range) at position 0 and at position 1 next to a canonical neighbour, empty / single / three-element containers, an unconvertible element at a position no expression reads, non-containers; again the full product request class x stored class. Non-finite numbers (NaN, +Inf, -Inf) as int / uint / double parameter or element, from either context, on every one-parameter condition of those types. Real eval.EvaluateTupleCondition on a condition taken from the typesystem vs an independent evaluator over request (+) stored with stored winning (a container is replaced as a whole, never merged); a panic of the evaluator is an outcome of its own; non-trivial = request and stored disagree on a parameter, or a parameter is missing, unconvertible or given in a non-canonical form; distinct by (condition, request classes, stored classes)")
 	r.Assume(
 		"the condition is obtained through typesystem.New(model).GetCondition (production CEL options: cost tracking, cost limit 100, partial evaluation)",
-		"conversion table transcribed from the type documentation/tests: bool<-bool; string<-string; int/uint<-integral JSON number or numeric string inside the 64-bit range (uint >= 0); double<-number or numeric string representable as float64; duration<-Go duration string; timestamp<-RFC 3339 string; list<string>/map<string><-list/object whose every item converts; ipaddress<-well-formed IP string (IPv4-mapped IPv6 = IPv4); any<-every JSON value unchanged; JSON null converts to nothing but any",
-		"not claimed (documentation and statement silent): numeric strings in exponent/'Inf'/'5.0' spellings, durations/timestamps beyond the listed spellings, context fields that are not declared parameters, CEL runtime errors of the expression itself (the grammar has none: no indexing, no division)",
+		"conversion table transcribed from the type documentation/tests: bool<-bool; string<-string; int/uint<-integral JSON number or numeric string inside the 64-bit range (uint >= 0); double<-number or numeric string representable as float64; duration<-Go duration string; timestamp<-RFC 3339 string; list<T>/map<T><-list/object whose every item converts to T by this same table (items the expression never reads included), the converted items being what the expression sees; ipaddress<-well-formed IP string (IPv4-mapped IPv6 = IPv4); any<-every JSON value unchanged; JSON null converts to nothing but any",
+		"not claimed (documentation and statement silent): numeric strings in exponent/'Inf'/'5.0' spellings, durations/timestamps beyond the listed spellings, context fields that are not declared parameters, CEL runtime errors of the expression itself (the grammar has none: indexing expressions are only run on containers that have the position/key, division is by a non-zero literal, no arithmetic member can overflow on an alphabet value, every member stays below the production cost limit), whether a non-finite number is a double (only: no panic)",
 		"failure is demanded whenever a declared parameter is absent from both contexts, also when CEL short-circuiting would not need it (statement: a missing parameter makes the evaluation fail); every declared parameter of the grammar occurs in the expression",
+		"operators of the type-sensitive members, hand-written: int / and % truncate toward zero, string + concatenates, size() counts code points, duration.getHours() truncates, timestamp - timestamp is a duration, timestamp +/- duration a timestamp; exists over an empty container is false, all is true",
 		"`any` equality follows CEL heterogeneous equality: numbers compare numerically across int/double, values of different JSON kinds are unequal",
 	)
 	thorough := o.Thorough()
 	rn := &runner{r: r, tier: o.Tier}
-	for k := kind(0); k < nKinds; k++ {
+	cs := conditions(thorough) // also registers the generated container kinds
+	rn.alpha, rn.full = make([][]val, totalKinds()), make([][]val, totalKinds())
+	contClasses, contFull := map[string]int{}, map[string]int{}
+	for k := kind(0); int(k) < totalKinds(); k++ {
 		rn.alpha[k] = alphabet(k, thorough)
-		r.Set("value_classes_"+k.String(), len(rn.alpha[k])+1)
+		for i := range rn.alpha[k] {
+			rn.alpha[k][i].pb = toValue(rn.alpha[k][i].JSON)
+		}
+		if k < nKinds {
+			r.Set("value_classes_"+k.String(), len(rn.alpha[k])+1)
+			continue
+		}
+		for _, v := range rn.alpha[k] {
+			if !v.Short {
+				rn.full[k] = append(rn.full[k], v)
+			}
+		}
+		contClasses[k.String()], contFull[k.String()] = len(rn.alpha[k])+1, len(rn.full[k])+1
+		rn.contByKind.Store(k.String(), new(atomic.Int64))
 	}
-	cs := conditions(thorough)
+	r.Set("container_kinds", len(contClasses))
+	r.Set("container_value_classes", contClasses)
+	r.Set("container_value_classes_with_both_positions", contFull)
 	ts, err := buildTypesystem(cs)
 	if err != nil {
 		fmt.Println("typesystem:", err)
@@ -421,6 +632,15 @@ func Run(o *core.Options) int {
 		for _, cd := range cs {
 			if cd.Name == c.Cond {
 				ec, _ := ts.GetCondition(cd.Name)
+				if c.Special != "" {
+					for which := range nonFinite {
+						if nonFinite[which].name == c.Special {
+							sig := rn.runSpecial(cd, ec, which, c.SpecialAt, c.SpecialIn)
+							fmt.Printf("replay: %s { %s } with %s -> verdict %q\n", cd.Name, cd.E.cel(), c.Special, sig)
+						}
+					}
+					continue
+				}
 				sig := rn.runCase(cd, ec, c.Req, c.Stored, c.ReqNil, c.StoredNil)
 				fmt.Printf("replay: %s { %s } -> verdict %q\n", cd.Name, cd.E.cel(), sig)
 			}
@@ -429,20 +649,28 @@ func Run(o *core.Options) int {
 	}
 
 	// every condition must compile: a grammar member the implementation rejects would silently shrink the claim
-	compiled := 0
-	for _, cd := range cs {
+	var compiled atomic.Int64
+	var compileErr sync.Map
+	r.Parallel(len(cs), func(i int) {
+		cd := cs[i]
 		ec, okc := ts.GetCondition(cd.Name)
 		if !okc {
-			fmt.Println("condition missing from typesystem:", cd.Name)
-			return 2
+			compileErr.Store(i, "condition missing from typesystem: "+cd.Name)
+			return
 		}
 		if err := ec.Compile(); err != nil {
-			fmt.Printf("harness error: grammar member does not compile: %s { %s }: %v\n", cd.Name, cd.E.cel(), err)
-			return 2
+			compileErr.Store(i, fmt.Sprintf("harness error: grammar member does not compile: %s { %s }: %v", cd.Name, cd.E.cel(), err))
+			return
 		}
-		compiled++
+		compiled.Add(1)
+	})
+	failed := false
+	compileErr.Range(func(_, v any) bool { fmt.Println(v); failed = true; return true })
+	if failed || int(compiled.Load()) != len(cs) {
+		fmt.Println("harness error: not every grammar member compiled:", compiled.Load(), "of", len(cs))
+		return 2
 	}
-	r.Set("conditions_compiled", compiled)
+	r.Set("conditions_compiled", compiled.Load())
 	byForm := map[string]int{}
 	for _, cd := range cs {
 		byForm[cd.Form]++
@@ -459,15 +687,30 @@ func Run(o *core.Options) int {
 			for j := range req {
 				req[j], sto[j] = 1, 2
 			}
-			_, a := rn.ctxStruct(cd, req, false)
-			_, b := rn.ctxStruct(cd, sto, false)
+			a, b := rn.ctxShow(cd, req, false), rn.ctxShow(cd, sto, false)
 			exp, _, _ := rn.expect(cd, req, sto, true)
 			r.Sample(map[string]any{"condition": fmt.Sprintf("%s(%s) { %s }", cd.Name, strings.Join(ps, ", "), cd.E.cel()), "request_context": a, "stored_context": b, "reference": exp.String()})
 		}
 	}
+	only := os.Getenv("C25_ONLY") // development aid: "containers" / "type-sensitive" restrict the sweep to those families
+	if only != "" {
+		r.NotExhaustive("C25_ONLY=" + only + " (development run)")
+	}
 	r.Parallel(len(cs), func(i int) {
+		if only == "containers" && !cs[i].Container || only == "type-sensitive" && !cs[i].TypeSensitive {
+			return
+		}
 		ec, _ := ts.GetCondition(cs[i].Name)
 		rn.sweep(cs[i], ec)
+		rn.sweepSpecial(cs[i], ec)
 	})
+	r.Count("container_evaluations", rn.contEvals.Load())
+	r.Count("container_expression_evaluated_on_converted_elements", rn.contEvaluated.Load())
+	r.Count("container_value_taken_from_stored_context", rn.contFromStored.Load())
+	r.Count("container_value_taken_from_request_context", rn.contFromRequest.Load())
+	r.Count("container_with_element_in_non_canonical_form", rn.contElemConverted.Load())
+	byKind := map[string]int64{}
+	rn.contByKind.Range(func(k, v any) bool { byKind[k.(string)] = v.(*atomic.Int64).Load(); return true })
+	r.Set("container_evaluations_by_kind", byKind)
 	return r.Finish()
 }
